@@ -1044,11 +1044,13 @@ func okstr(c uint32) string {
 func (h *Hist) blockTwin(twin *Node, res *ModeResult, fail func(string)) bool {
 	h.Mirror = twin
 	ok := h.Block()
+	diverged := len(h.MirrorDiffs) > 0
 	for _, d := range h.MirrorDiffs {
 		fail("imported chain behaves differently: " + d)
 	}
 	h.MirrorDiffs = nil
-	return ok && len(res.Violations) == 0
+	// stop this twin once it diverged; violations of EARLIER histories of the run (e.g. the known finding F15) do not stop it
+	return ok && !diverged
 }
 
 func (h *Hist) Run() {
